@@ -128,6 +128,8 @@ def stems(n=300, base=100.0):
         return np.array(rows, dtype=float)
 
     out['trend'] = build([base + 0.5 * i + (1.5 if i % 7 == 0 else 0) for i in range(n)])
+    # a perfectly clean ramp (oscillators pinned at their bound for a long stretch), then a reversal
+    out['ramp'] = build([base + 0.5 * i if i < 2 * n // 3 else base + 0.5 * (2 * n // 3) - 0.7 * (i - 2 * n // 3) for i in range(n)], wick=0.0)
     out['flat'] = build([base + (0.2 if i % 2 else -0.2) for i in range(n)], wick=0.1)
     out['spike'] = build([base + (25.0 if i in (70, 71, 180) else 0) + 0.1 * (i % 5) for i in range(n)])
     out['saw'] = build([base + (i % 13) * 0.8 - (i % 5) * 0.5 for i in range(n)])
